@@ -100,6 +100,28 @@ func loadBalances() {
 }
 
 // toggleMinBal is used by the random recorder: the index comes back with the other limit.
+// installTxChecker installs chain.TrustedTxChecker the way the client does for transactions its mempool has already
+// verified: it vouches for the scenario transactions with an odd id whose inputs all carry valid scripts. Vouching may
+// only spare THAT transaction's script checks; everything else in the block is still checked.
+func installTxChecker(w *conc.World) {
+	chain.TrustedTxChecker = func(tx *btc.Tx) bool {
+		id, ok := w.TxID[tx.Hash.Hash]
+		if !ok || id%2 == 0 {
+			return false
+		}
+		d, ok := w.Sc.Tx[id]
+		if !ok {
+			return false
+		}
+		for _, in := range d.Ins {
+			if !in.Ok {
+				return false
+			}
+		}
+		return true
+	}
+}
+
 func toggleMinBal() {
 	if curMinBal == balLimits[0] {
 		setMinBal(2)
@@ -357,6 +379,7 @@ func main() {
 		fmt.Fprintln(os.Stderr, "world:", err)
 		os.Exit(2)
 	}
+	installTxChecker(w)
 	out := vio.NewOut()
 	jobs := make(chan []byte, 256)
 	var nLines, nSteps, nFail int64
